@@ -31,6 +31,11 @@ var icSigs = []icSig{
 	{"(int,string)(int,string)", []icParam{{"a", "int"}, {"b", "string"}}, false, []string{"int", "string"}},
 	{"(int,...int)int", []icParam{{"a", "int"}, {"rest", "[]int"}}, true, []string{"int"}},
 	{"(...int)(int,string)", []icParam{{"rest", "[]int"}}, true, []string{"int", "string"}},
+	// arguments that are assignable to, but not identical with, the parameter type: the binding must have the
+	// parameter's type
+	{"(any)int", []icParam{{"a", "any"}}, false, []string{"int"}},
+	{"(ext.MySl,<-chan int)int", []icParam{{"a", "ext.MySl"}, {"b", "<-chan int"}}, false, []string{"int"}},
+	{"(float64,error)", []icParam{{"a", "float64"}, {"b", "error"}}, false, nil},
 }
 
 func icArg(typ string, effect bool) arg {
@@ -43,6 +48,16 @@ func icArg(typ string, effect bool) arg {
 		return arg{"ext.SideS()", func(w *world) { w.cb.Val(w.ref("ext", "SideS")).Call(0) }}
 	case typ == "string":
 		return arg{"y", func(w *world) { w.val("y") }}
+	case typ == "any":
+		return arg{"y", func(w *world) { w.val("y") }}
+	case typ == "ext.MySl":
+		return arg{"z", func(w *world) { w.val("z") }}
+	case typ == "<-chan int":
+		return arg{"ch", func(w *world) { w.val("ch") }}
+	case typ == "float64":
+		return arg{"1", func(w *world) { w.cb.Val(1) }}
+	case typ == "error":
+		return arg{"nil", func(w *world) { w.cb.Val(nil) }}
 	}
 	panic("icArg " + typ)
 }
@@ -54,6 +69,13 @@ func closureRows(thorough bool) []row {
 			for _, body := range []string{"ret", "early"} {
 				for _, nvar := range []int{0, 1, 2} { // number of variadic arguments
 					if !sg.variadic && nvar != 1 {
+						continue
+					}
+					plain := true // only int / string operands have side-effecting variants
+					for _, p := range sg.params {
+						plain = plain && (p.typ == "int" || p.typ == "string" || p.typ == "[]int")
+					}
+					if effect && !plain {
 						continue
 					}
 					sg, effect, body, nvar := sg, effect, body, nvar
